@@ -821,7 +821,8 @@ def _lines(ctx):
         a_.arg for a_, v_ in zip(parse.node.args.kwonlyargs, parse.node.args.kw_defaults) if v_ is not None
     }
     for nm in defaulted:
-        pb = [_re.sub(r",\s*{0}={0}(?=[,)])".format(_re.escape(nm)), "", line) for line in pb]
+        # (keyword spelling, or — keyword calls to package functions are normalised to positional — a trailing positional)
+        pb = [_re.sub(r",\s*(?:{0}=)?{0}(?=[,)])".format(_re.escape(nm)), "", line) for line in pb]
     cn = lambda lines: ctx._canon(parse.mod.name, parse.short, " ; ".join(lines))
     comp = cn(pb) in (
         cn(["scanned = cst_scanner(source)", "parsed = cst_parser(scanned)", "return parsed"]),
